@@ -42,3 +42,5 @@ META = dict(
                 "covered: interleavings not produced by the OS scheduler + perturbation; non-x86 memory models."),
     technique="runtime monitoring: interval/overlap oracle + fill patterns + ThreadSanitizer under schedule perturbation",
 )
+
+CFG["rule"] += (" " + 'Additions: up-to requests far beyond the ring (to SIZE_MAX) and with an impossible minimum (ring+1.., top bit set); every 64th sequential case uses a ring of 2^32-1 .. 2^33+1 bytes on an address-space-only allocator that records the requested size; aws_ring_buffer_buf_belongs_to_pool checked; stale aws_last_error()/errno.')
